@@ -157,6 +157,19 @@ def check_advance(res: Res, cfg, bus, tag, a: int, m: int, n: int, wit: dict) ->
     exp_m = rm.advance(cfg, a, m)
     res.case((tag, a, m, n), nontrivial=exp_n is not None)
     if exp_n is None:
+        # leaving the mapped range: no address is defined - unless the advance runs into a bank nothing is mapped to,
+        # which (like any unmapped address) must be refused
+        if not r["ram"]:
+            off = rm.offset(cfg, a) + n
+            bank = r["base"] + off // r["size"]
+            if bank <= 0xFF and rm.find(cfg, bank << 16) is None:
+                res.count("advance_into_unmapped_judged")
+                try:
+                    B = A + n
+                    res.violate("unmapped-accepted", f"{tag}: {a:#x}+{n} runs into unmapped bank {bank:#x} but gave {B.logical_value:#x}", wit)
+                except Exception:  # noqa: BLE001
+                    pass
+                return
         res.count("advance_leaves_range_unjudged")
         return
 
